@@ -8,6 +8,8 @@ Deferreds) is run on REAL `twisted.internet.defer.Deferred` objects and compared
     as the Python transcription `_spec_history` below (kept textually parallel; the two are cross-checked on every
     case) — the property oracle, evaluated on what the real objects did, independently of the chain-stack model.
 """
+import re
+import signal
 import warnings
 
 from twisted.internet import defer
@@ -22,15 +24,35 @@ RULE = ("programs over n<=6 Deferreds and <=20 operations from {addCallback, add
         "added to the inner one after the continuation, chains of 3..6) with random tails + 2500 random programs "
         "(balanced pauses; a separate stream with unbalanced unpauses, self-returning callbacks and repeated returns); "
         "thorough: length <=5 exhaustive, a 3-Deferred alphabet to length 4, 60000 random. "
+        "Every program is also run in other DRESSES that must not change any observable (white-box mutation audit, "
+        "harness/mutants/C01): Deferreds that are instances of a Deferred subclass (all / some of them), Failures that are "
+        "instances of a Failure subclass, callables added with extra positional and/or keyword arguments (addCallback(f, a, "
+        "kw=k), addCallbacks(callbackArgs/-Keywords, errbackArgs/-Keywords) - different ones for the two sides; the callable "
+        "checks what it receives), None as a fired / returned value, errbacks fired as errback(exception) / "
+        "errback(Failure) / callback(Failure) / errback() inside an except block, also with an exception class outside "
+        "Exception, Deferred debugging on; every short program (length 2..3) over the small alphabet is run in the full "
+        "dress, the random streams in a rotating mix. RE-ENTRANT programs (1000 quick / 30000 thorough, oracle-only): "
+        "callables that, before returning, add callbacks to their own Deferred (also while it runs as a chainee of another "
+        "one) or to another Deferred, fire another Deferred, or fire their own Deferred again (AlreadyCalledError). "
+        "A watchdog turns a case that does not come to an end into a violation instead of hanging the check. "
         "distinct = set of (operation kind, state class of the addressed Deferred, what the operation made happen)")
 ASSUMES = [
-    "user callables only return a value / raise / return a Failure / return one of the program's Deferreds; they do not "
-    "themselves call methods of Deferreds (no re-entrancy: _runningCallbacks is never observed set), so chainDeferred "
-    "(whose installed callables call d.callback/d.errback) and cancel() (C03) are outside this property's alphabet",
+    "user callables return a value / raise / return a Failure / return one of the program's Deferreds; in the Lean model "
+    "they do not themselves call methods of Deferreds (no re-entrancy: _runningCallbacks is never observed set). Programs "
+    "whose callables add callbacks / fire Deferreds themselves are run on the real code and judged by the property oracle "
+    "only (Python reference interpreter with the _runningCallbacks guard: the Deferred whose callable is executing still "
+    "holds the callable's input and is not re-entered). Two situations are left to the per-Deferred clauses (at most once, "
+    "in added order, never before being added, extra arguments) and exempt from the comparison with the reference, because "
+    "the documented rules give no single answer: a callable operating on a Deferred that is in the middle of its chain "
+    "because it handed its result over to the Deferred now running (recursive reading: its loop is above on the call "
+    "stack; the iterative code: no callable of it is executing, a nested loop starts), and a Deferred returned while one "
+    "of its own callables is executing. Callables never pause/unpause; chainDeferred and cancel() (C03) are outside",
+    "None as a value is run through the model and the reference as the opaque value 9 (neither ever inspects a value); "
+    "subclass instances, extra arguments and the way an errback is fired are invisible to the model (same model line)",
     "reference-interpreter comparison is demanded only for programs inside the statement's domain: unpause() never "
     "outnumbers pause() on a Deferred (a negative pause count is API misuse) and no callable returns the Deferred it is "
     "attached to (Twisted warns: 'this breaks the callback chain'); programs outside it are still run and tied to the model",
-    "Failure identity is abstracted to the tag of the exception it wraps; Deferred.debug is off",
+    "Failure identity is abstracted to the tag of the exception it wraps",
     "the reference interpreter implements the documented chaining rules incl. the two stated in the docstring of "
     "Deferred._runCallbacks: the _runningCallbacks guard (a Deferred whose loop is on the call stack is not re-entered) and "
     "'if a Deferred with a result is encountered, that result is taken and the loop proceeds' (fired, not paused, plain "
@@ -57,7 +79,11 @@ MANIFEST = {
             "outstanding continuations, a Deferred holding a Deferred is paused, continuations belong to fired Deferreds, a "
             "fired unpaused Deferred with a plain result that is not on the chain stack has no callbacks, the Deferreds below "
             "the top of the stack are unpaused and distinct. run_refines_spec_nonchaining covers non-chaining programs with "
-            "unbalanced pauses. Model tied to defer.py by per-operation differential runs (outcome, invocations with inputs "
+            "unbalanced pauses. White-box mutation audit (harness/mutants/C01, 13 mutants): the "
+            "tie and the oracle also run every program with Deferred / Failure subclass instances, extra callback arguments, "
+            "None values, the four ways of firing an errback, and (oracle-only, not in the Lean model) callables that add "
+            "callbacks to / fire Deferreds themselves; run_value_blind: renaming the plain values of a program by any function "
+            "renames the run and changes nothing else (so None is run through the model as the opaque value 9). Model tied to defer.py by per-operation differential runs (outcome, invocations with inputs "
             "and outputs, called/paused/result/pending callbacks incl. continuations of every Deferred); both interpreters run "
             "on every generated case and the reference is evaluated against the real objects.",
     "note": "input=previous-output is proved directly for leaf Deferreds only; for Deferreds that take part in chaining the inputs "
@@ -89,8 +115,21 @@ _CUR = {"exc": UserError}      # the class user callables raise in the case bein
 # ------------------------------------------------------------------------------------------
 # cases: {"n": <number of Deferreds>, "ops": [<op token>, …]}  (tokens = the driver protocol)
 
+def nested_of(tok):
+    """the operations a callable added by this `add` token performs itself (re-entrantly) before it returns:
+    `ac0:v3~ac0:v4~cb1:5` = addCallback(f) where f calls d0.addCallback(g), d1.callback(5), then returns 3"""
+    return tok.split("~")[1:]
+
+
+def nested_tag(tag, j):
+    """the tag of the pair added by nested operation number j of the callable(s) of pair `tag` (static: a callable
+    runs at most once)"""
+    return 100 * (tag + 1) + j
+
+
 def parse_op(tok):
-    """→ (kind, d, a, b)"""
+    """→ (kind, d, a, b)   (of the operation itself; see nested_of for what its callables do on their own)"""
+    tok = tok.split("~")[0]
     if tok[:2] in ("ac", "ae", "ab"):
         d, beh = tok[2:].split(":")
         return (tok[:2], int(d), beh, None)
@@ -120,6 +159,13 @@ def in_domain(c):
     """the statement's preconditions: pauses balanced, no callable returns the Deferred it is attached to"""
     depth = {}
     for tok in c["ops"]:
+        for ntok in nested_of(tok):
+            nk, nd, na, nb = parse_op(ntok)
+            if nk in ("p", "u"):
+                return False      # a callable pausing / unpausing from inside a running chain: not in the statement
+            if nk[0] == "a" and f"d{nd}" in slots_of(nk, na, nb):
+                return False
+    for tok in c["ops"]:
         kind, d, a, b = parse_op(tok)
         if kind == "p":
             depth[d] = depth.get(d, 0) + 1
@@ -134,14 +180,40 @@ def in_domain(c):
     return True
 
 
+def has_nested(c):
+    return any("~" in t for t in c["ops"])
+
+
 def model_line(c):
+    if has_nested(c):
+        return None     # callables that operate on Deferreds themselves: oracle-only (the Lean model has no re-entrancy)
     return " ".join([str(c["n"])] + list(c["ops"]))
+
+
+def _norm(c, s):
+    """with c["nil"] the value 9 stands for None (model / reference: an opaque value `v9`; real objects: `N`)"""
+    if c.get("nil"):
+        return re.sub(r"v9(?![0-9])", "N", s)
+    return s
 
 
 # ------------------------------------------------------------------------------------------
 # the real code
 
 _NO = object()
+_LOG_LIMIT = 4000        # invocations in one case; a correct run makes at most ~150
+
+
+class SubDeferred(Deferred):
+    """c["sub"]: the Deferreds listed there are instances of a subclass (`type(x) in _DEFERRED_SUBCLASSES`)"""
+
+
+class SubFailure(Failure):
+    """c["fsub"]: the Failures the program returns / fires with are instances of a subclass (cf. pb.CopiedFailure)"""
+
+
+class _Runaway(BaseException):
+    """raised by the harness callables / the watchdog when a case does not come to an end"""
 
 
 def _val(r, ds):
@@ -163,20 +235,121 @@ def _val(r, ds):
     return "?" + type(r).__name__
 
 
-def _mk(log, ds, d_index, tag, beh):
-    k, n = beh[0], int(beh[1:])
+def _extras(c, tag, side):
+    """the extra positional / keyword arguments registered with the callable of pair `tag` (side 0 = callback,
+    1 = errback of addCallbacks; the single callable of addCallback / addErrback / addBoth is side 0)"""
+    k = c.get("args")
+    if not k:
+        return (), {}
+    pat = (tag + k + side) % 4
+    args = (("a", tag, side),) if pat in (1, 3) else ()
+    kwargs = {"kw": ("k", tag, side)} if pat in (2, 3) else {}
+    return args, kwargs
 
-    def f(arg):
-        log.append((d_index, tag, _val(arg, ds), _beh_out(beh)))
-        if k == "v":
-            return n
-        if k == "x":
-            raise _CUR["exc"](n)
-        if k == "f":
-            return Failure(_CUR["exc"](n))
-        return ds[n]
-    f._tag = tag
-    return f
+
+class _Run:
+    def __init__(self, c):
+        cls = c.get("sub") or []
+        self.c = c
+        self.ds = [(SubDeferred if (cls is True or i in cls) else Deferred)() for i in range(c["n"])]
+        self.log = []
+        self.runaway = False
+
+    def failure(self, n):
+        return (SubFailure if self.c.get("fsub") else Failure)(_CUR["exc"](n))
+
+    def value(self, n):
+        return None if (self.c.get("nil") and n == 9) else n
+
+    def mk(self, d_index, tag, beh, side, nested):
+        k, n = beh[0], int(beh[1:])
+        want = _extras(self.c, tag, side)
+        log, ds = self.log, self.ds
+
+        def f(arg, *args, **kwargs):
+            if len(log) > _LOG_LIMIT:
+                self.runaway = True
+                raise _Runaway()
+            got = _val(arg, ds)
+            if (args, kwargs) != want:
+                got += "!extra-arguments"          # not the extra arguments this callable was registered with
+            entry = [d_index, tag, got, _beh_out(beh)]
+            log.append(entry)
+            if nested:
+                outs = []
+                for j, ntok in enumerate(nested):
+                    if ntok[0] == "a":
+                        # (a fact about the program, not about Deferred: WHEN this callable adds its pair)
+                        log.append([parse_op(ntok)[1], nested_tag(tag, j), "+", "+"])
+                    outs.append(self.apply(ntok, nested_tag(tag, j)))
+                entry[3] += "~" + "~".join(outs)
+            if k == "v":
+                return self.value(n)
+            if k == "x":
+                raise _CUR["exc"](n)
+            if k == "f":
+                return self.failure(n)
+            return ds[n]
+        f._tag = tag
+        return f
+
+    def apply(self, tok, tag):
+        """perform one operation on the real objects (`tag` = the tag its pair gets if it is an add) → 'ok' | 'A'"""
+        c, ds = self.c, self.ds
+        kind, d, a, b = parse_op(tok)
+        nested = nested_of(tok)
+        try:
+            if kind == "ac":
+                args, kwargs = _extras(c, tag, 0)
+                ds[d].addCallback(self.mk(d, tag, a, 0, nested), *args, **kwargs)
+            elif kind == "ae":
+                args, kwargs = _extras(c, tag, 0)
+                ds[d].addErrback(self.mk(d, tag, a, 0, nested), *args, **kwargs)
+            elif kind == "ab":
+                args, kwargs = _extras(c, tag, 0)
+                ds[d].addBoth(self.mk(d, tag, a, 0, nested), *args, **kwargs)
+            elif kind == "aa":
+                kw = {}
+                if a == "p":
+                    cb = _echo(tag)
+                else:
+                    cb = self.mk(d, tag, a, 0, nested)
+                    args, kwargs = _extras(c, tag, 0)
+                    if args:
+                        kw["callbackArgs"] = args
+                    if kwargs:
+                        kw["callbackKeywords"] = kwargs
+                if b == "p":
+                    ds[d].addCallbacks(cb, **kw)
+                else:
+                    args, kwargs = _extras(c, tag, 1)
+                    if args:
+                        kw["errbackArgs"] = args
+                    if kwargs:
+                        kw["errbackKeywords"] = kwargs
+                    ds[d].addCallbacks(cb, self.mk(d, tag, b, 1, nested), **kw)
+            elif kind == "p":
+                ds[d].pause()
+            elif kind == "u":
+                ds[d].unpause()
+            elif kind == "cb":
+                ds[d].callback(self.value(a))
+            elif kind == "eb":
+                form = c.get("fire")
+                if form == "failure":          # a ready-made Failure
+                    ds[d].errback(self.failure(a))
+                elif form == "cbf":            # callback(Failure) is documented to behave like errback(Failure)
+                    ds[d].callback(self.failure(a))
+                elif form == "noarg":          # errback() inside an except block: the current exception
+                    try:
+                        raise _CUR["exc"](a)
+                    except BaseException:
+                        ds[d].errback()
+                else:                          # an exception instance (of the class the case says)
+                    ds[d].errback(_CUR["exc"](a))
+            return "ok"
+        except AlreadyCalledError:
+            return "A"
 
 
 def _echo(tag):
@@ -206,53 +379,48 @@ def _snap(ds):
                     for d in ds)
 
 
+def _watchdog(signum, frame):
+    raise _Runaway()
+
+
 def run_impl(c):
     _CUR["exc"] = UserBaseError if c.get("exc") == "B" else UserError
     dbg = defer.getDebugging()
     defer.setDebugging(bool(c.get("dbg")))      # Deferred debugging must not change any observable (seeded change C03-2)
+    old = None
     try:
-        return _run_impl(c)
+        # a regression that makes _runCallbacks loop for ever must end as a violation, not hang the check: the callables
+        # give up after _LOG_LIMIT invocations, and a repeating timer interrupts loops that call nothing
+        old = signal.signal(signal.SIGALRM, _watchdog)
+        signal.setitimer(signal.ITIMER_REAL, 20, 0.5)
+    except ValueError:
+        old = None                              # not the main thread
+    try:
+        return _norm(c, _run_impl(c))
+    except _Runaway:
+        return "!raised Runaway"
     finally:
+        if old is not None:
+            signal.setitimer(signal.ITIMER_REAL, 0, 0)
+            signal.signal(signal.SIGALRM, old)
         defer.setDebugging(dbg)
         _CUR["exc"] = UserError
 
 
 def _run_impl(c):
-    ds = [Deferred() for _ in range(c["n"])]
-    log, toks, nadds = [], [], 0
+    run = _Run(c)
+    ds, log = run.ds, run.log
+    toks, nadds = [], 0
     with warnings.catch_warnings():
         warnings.simplefilter("ignore")
         try:
             for tok in c["ops"]:
-                kind, d, a, b = parse_op(tok)
                 seen = len(log)
-                try:
-                    if kind == "ac":
-                        ds[d].addCallback(_mk(log, ds, d, nadds, a))
-                    elif kind == "ae":
-                        ds[d].addErrback(_mk(log, ds, d, nadds, a))
-                    elif kind == "ab":
-                        ds[d].addBoth(_mk(log, ds, d, nadds, a))
-                    elif kind == "aa":
-                        cb = _echo(nadds) if a == "p" else _mk(log, ds, d, nadds, a)
-                        if b == "p":
-                            ds[d].addCallbacks(cb)
-                        else:
-                            ds[d].addCallbacks(cb, _mk(log, ds, d, nadds, b))
-                    elif kind == "p":
-                        ds[d].pause()
-                    elif kind == "u":
-                        ds[d].unpause()
-                    elif kind == "cb":
-                        ds[d].callback(a)
-                    elif kind == "eb":
-                        ds[d].errback(UserError(a))
-                    o = "ok"
-                except AlreadyCalledError:
-                    o = "A"
-                finally:
-                    if kind[0] == "a":
-                        nadds += 1
+                o = run.apply(tok, nadds)
+                if tok[0] == "a":
+                    nadds += 1
+                if run.runaway:
+                    return "!raised Runaway"
                 toks.append(o + "/" + ",".join(f"{x}.{t}.{v}.{w}" for x, t, v, w in log[seen:]) + "/" + _snap(ds))
         finally:
             for d in ds:       # no "Unhandled error in Deferred" noise at garbage collection
@@ -276,13 +444,21 @@ def _beh_out(beh):
     return {"v": "v", "x": "e", "f": "e", "d": "d"}[k] + beh[1:]
 
 
+def _plain(w):
+    """the value in the output field of an invocation (`v3~ok~A` = returned 3 after two operations of its own)"""
+    return w.split("~")[0]
+
+
 class _Spec:
     def __init__(self, n):
         self.cells = [_SCell() for _ in range(n)]
         self.trace = []
         self.nadds = 0
         self.active = []          # Deferreds whose loop is on the call stack (`_runningCallbacks`)
+        self.calling = []         # Deferreds one of whose callables is executing right now (it operates on Deferreds)
         self.midchain_return = False
+        # re-entrant programs only: something happened for which the documented rules give no single answer (see op())
+        self.ambiguous = False
 
     def run(self, d):
         if d in self.active:
@@ -308,17 +484,35 @@ class _Spec:
                 finally:
                     self.active.pop()
         else:
-            _, tag, cb, eb = item
+            _, tag, cb, eb, nested = item
             slot = eb if cell.result[0] == "e" else cb
             if slot == "p":
                 out = cell.result
             else:
                 out = _beh_out(slot)
-                self.trace.append((d, tag, cell.result, out))
+                entry = [d, tag, cell.result, out]
+                self.trace.append(entry)
+                if nested:
+                    # the callable operates on Deferreds itself before it returns: its own Deferred still holds the
+                    # callable's input and is running (`_runningCallbacks`), so nothing re-enters it
+                    self.active.append(d)
+                    self.calling.append(d)
+                    try:
+                        outs = []
+                        for j, ntok in enumerate(nested):
+                            if ntok[0] == "a":
+                                self.trace.append([parse_op(ntok)[1], nested_tag(tag, j), "+", "+"])
+                            outs.append(self.op(ntok, nested_tag(tag, j)))
+                    finally:
+                        self.active.pop()
+                        self.calling.pop()
+                    entry[3] = out + "~" + "~".join(outs)
             cell.result = out
             if out[0] == "d":
                 j = int(out[1:])
                 cj = cells[j]
+                if j in self.calling:
+                    self.ambiguous = True     # returned while one of its own callables is still executing
                 if cj.result != "-" and cj.result[0] != "d" and cj.paused == 0 and not cj.callbacks:
                     # already fired, nothing left to run: "that result is taken and the loop proceeds"
                     cell.result = cj.result
@@ -333,13 +527,21 @@ class _Spec:
                     return
         self.run(d)
 
-    def op(self, tok):
+    def op(self, tok, tag=None):
+        """a program operation (tag None) or one performed by a callable (tag = the tag of the pair if it adds one)"""
         kind, d, a, b = parse_op(tok)
         cell = self.cells[d]
+        if tag is not None and d in self.active and d not in self.calling:
+            # a callable operates on a Deferred that is in the middle of its chain because it handed its result to the
+            # Deferred now running: the rule "its loop is already running above us on the call stack" and the fact that
+            # no callable of it is executing point in different directions; nothing is demanded from the interleaving
+            self.ambiguous = True
         if kind[0] == "a":
             cb, eb = slots_of(kind, a, b)
-            cell.callbacks.append(("t", self.nadds, cb, eb))
-            self.nadds += 1
+            if tag is None:
+                tag = self.nadds
+                self.nadds += 1
+            cell.callbacks.append(("t", tag, cb, eb, nested_of(tok)))
             if cell.called:
                 self.run(d)
         elif kind == "p":
@@ -362,7 +564,7 @@ class _Spec:
             for c in self.cells)
 
 
-def _spec_history(c):
+def _spec_history(c, flags=None):
     """→ (history string in the driver's format, a Deferred was returned while in the middle of its own chain?)"""
     sp = _Spec(c["n"])
     toks = []
@@ -370,6 +572,8 @@ def _spec_history(c):
         seen = len(sp.trace)
         o = sp.op(tok)
         toks.append(o + "/" + ",".join(f"{x}.{t}.{v}.{w}" for x, t, v, w in sp.trace[seen:]) + "/" + sp.snap())
+    if flags is not None:
+        flags["ambiguous"] = sp.ambiguous
     return (" ".join(toks) if toks else "-"), sp.midchain_return
 
 
@@ -378,14 +582,14 @@ def compare(c, impl_out, model_out):
     transcription used by the oracle"""
     if " ## " not in model_out:
         return False
-    core, spec = model_out.split(" ## ")
+    core, spec = _norm(c, model_out).split(" ## ")
     if core != impl_out:
         return False
     try:
         py, _ = _spec_history(c)
     except RecursionError:
         return False
-    return py == spec
+    return _norm(c, py) == spec
 
 
 # ------------------------------------------------------------------------------------------
@@ -424,25 +628,43 @@ def _violation(c, out):
         return {"key": "unparsable", "detail": f"{out[:200]!r}: {e}"}
     if len(steps) != len(c["ops"]):
         return {"key": "unparsable", "detail": "missing steps"}
-    prog = f"n={c['n']} ops={' '.join(c['ops'])}"
+    prog = f"n={c['n']} ops={' '.join(c['ops'])}" + "".join(f" {k}={c[k]}" for k in _FLAGS if c.get(k))
     # (1) at most once, (2) in added order per Deferred — for EVERY program, inside the domain or not
     owner, nadds = {}, 0
-    for tok in c["ops"]:
+    allops = []               # every operation of the program, those performed by callables included
+    added_at = {}             # tag → when the pair was added: (operation number, position in its invocations)
+    for n, tok in enumerate(c["ops"]):
         kind, d, a, b = parse_op(tok)
+        allops.append((kind, d, a, b))
         if kind[0] == "a":
             owner[nadds] = d
+            added_at[nadds] = (n, -1)
+            for j, ntok in enumerate(nested_of(tok)):
+                nk, nd, na, nb = parse_op(ntok)
+                allops.append((nk, nd, na, nb))
+                if nk[0] == "a":
+                    owner[nested_tag(nadds, j)] = nd
             nadds += 1
     ran, last = set(), {}
     for n, (o, invs, cells) in enumerate(steps):
-        for d, t, v, w in invs:
+        for pos, (d, t, v, w) in enumerate(invs):
+            if v == "+":
+                added_at[t] = (n, pos)       # the harness callable's note: it adds pair t now
+                continue
             if t in ran:
                 return {"key": "ran-twice", "detail": f"callable {t} invoked again at op #{n} of {prog}"}
             ran.add(t)
             if owner.get(t) != d:
                 return {"key": "wrong-deferred", "detail": f"callable {t} ran for Deferred {d} at op #{n} of {prog}"}
-            if last.get(d, -1) > t:
+            if t not in added_at or added_at[t] > (n, pos):
+                return {"key": "ran-before-added", "detail": f"callable {t} at op #{n} of {prog}"}
+            if d in last and added_at[last[d]] > added_at[t]:
                 return {"key": "out-of-order", "detail": f"Deferred {d}: callable {t} after {last[d]} at op #{n} of {prog}"}
             last[d] = t
+            if "!" in v:
+                return {"key": "wrong-extra-arguments",
+                        "detail": f"callable {t} of Deferred {d} was not called with the extra arguments it was added "
+                                  f"with, at op #{n} of {prog}"}
         for i, cell in enumerate(cells):
             for p in cell["user"]:
                 if int(p[1:]) in ran:
@@ -451,32 +673,39 @@ def _violation(c, out):
     # input is the previous callable's output, the first one the value the Deferred was fired with
     returned, returns = set(), set()
     fired = {}
-    for tok in c["ops"]:
-        kind, d, a, b = parse_op(tok)
+    for kind, d, a, b in allops:
         if kind[0] == "a":
             for sl in slots_of(kind, a, b):
                 if sl[0] == "d":
                     returned.add(int(sl[1:]))
                     returns.add(d)
-        elif kind in ("cb", "eb") and d not in fired:
-            fired[d] = ("v" if kind == "cb" else "e") + str(a)
+        elif kind in ("cb", "eb"):
+            # (with callables that fire Deferreds themselves, which firing comes first is not static: any of them)
+            fired.setdefault(d, set())
+            if not has_nested(c) and fired[d]:
+                continue
+            fired[d].add(_norm(c, ("v" if kind == "cb" else "e") + str(a)))
     prev_out = {}
     for n, (o, invs, cells) in enumerate(steps):
         for d, t, v, w in invs:
-            if d in returned or d in returns:
+            if d in returned or d in returns or v == "+":
                 continue
-            want = prev_out.get(d, fired.get(d))
-            if v != want:
+            want = {prev_out[d]} if d in prev_out else fired.get(d, set())
+            if v not in want:
                 return {"key": "input-not-previous-output",
-                        "detail": f"callable {t} of Deferred {d} got {v}, expected {want}, at op #{n} of {prog}"}
-            prev_out[d] = w
+                        "detail": f"callable {t} of Deferred {d} got {v}, expected {sorted(want)}, at op #{n} of {prog}"}
+            prev_out[d] = _norm(c, _plain(w))
     # (3)+(4) inputs, results and not-yet-run callables are what the reference interpreter predicts
     if not in_domain(c):
         return None
+    flags = {}
     try:
-        ref, midchain = _spec_history(c)
+        ref, midchain = _spec_history(c, flags)
     except RecursionError:
         return {"key": "reference-diverges", "detail": prog}
+    if flags["ambiguous"]:
+        return None
+    ref = _norm(c, ref)
     rsteps = _parse_hist(ref)
     for n, ((o, invs, cells), (ro, rinvs, rcells)) in enumerate(zip(steps, rsteps)):
         # invocations are compared per Deferred (stable sort by Deferred keeps each Deferred's own order): the
@@ -498,6 +727,9 @@ def oracle(c, out):
 
 # ------------------------------------------------------------------------------------------
 # generation
+
+_FLAGS = ("exc", "dbg", "sub", "fsub", "fire", "nil", "args")
+
 
 def _alphabet(n, small):
     ops = []
@@ -647,14 +879,106 @@ def _scenario(rng):
     return {"n": n, "ops": out}
 
 
+def _variant(c, i):
+    """the same program in another dress (none of these may change any observable):
+    a quarter of the programs in which a callable raises / returns a Failure use a class outside Exception;
+    one program in eight runs with Deferred debugging switched on; in a third of them some / all Deferreds are
+    instances of a subclass; in a third the callables are added with extra positional / keyword arguments; in a third
+    the value 9 is None; one in six uses a Failure subclass; errbacks are fired in the four documented ways"""
+    if i % 4 == 1 and any(":x" in t or ":f" in t or t.startswith("eb") or "~eb" in t for t in c["ops"]):
+        c["exc"] = "B"
+    if i % 8 == 3:
+        c["dbg"] = True
+    if i % 3 == 0:
+        c["sub"] = True if i % 2 == 0 else [d for d in range(c["n"]) if (i >> (d + 2)) & 1]
+        if not c["sub"]:
+            c["sub"] = [c["n"] - 1]
+    if i % 3 == 1:
+        c["args"] = 1 + (i // 3) % 3
+    if i % 3 == 2 or i % 5 == 0:
+        c["nil"] = True
+    if i % 6 == 1:
+        c["fsub"] = True
+    form = (None, "failure", "cbf", "noarg", None)[i % 5]
+    if form:
+        c["fire"] = form
+    return c
+
+
+def _reentrant(rng):
+    """a program some of whose callables add callbacks to / fire Deferreds themselves before they return"""
+    k = rng.random()
+    if k < 0.25:
+        # the Deferred whose callable adds to it is running as a chainee: 1 waits on 2, then 2 fires
+        v = rng.randint(0, 8)
+        base = {"n": 3, "ops": ["ac1:d2", f"ac1:v{v}", "ab1:v2", "cb1:0", "ab2:v5", "cb2:1"]}
+        if rng.random() < 0.5:
+            rng.shuffle(base["ops"])
+    elif k < 0.5:
+        base = _scenario(rng)
+    else:
+        base = _random_program(rng, False)
+    n = base["n"]
+    ops = []
+    for tok in base["ops"]:
+        kind, d, a, b = parse_op(tok)
+        if kind[0] == "a" and rng.random() < 0.45:
+            for _ in range(rng.choice([1, 1, 2])):
+                r = rng.random()
+                if r < 0.45:            # adds to the Deferred it belongs to
+                    nt = _add(rng, n, d, 0.2)
+                elif r < 0.6 and n > 1:  # adds to another one
+                    e = rng.randrange(n)
+                    nt = _add(rng, n, e, 0.2)
+                elif r < 0.9:           # fires another one (or, rarely, its own: AlreadyCalledError)
+                    e = rng.randrange(n)
+                    nt = f"cb{e}:{rng.randint(0, 9)}" if rng.random() < 0.7 else f"eb{e}:{rng.randint(0, 9)}"
+                else:
+                    nt = f"cb{d}:{rng.randint(0, 9)}"
+                tok += "~" + nt
+        ops.append(tok)
+    return {"n": n, "ops": ops}
+
+
 def corpus():
-    return _corpus() + [
+    return _corpus() + _corpus2() + [
         # callables raising outside the Exception hierarchy (seeded change C01-2), with a Deferred waiting on the raiser
         {"n": 2, "ops": ["ac0:d1", "ab0:v2", "cb0:1", "ac1:x3", "ae1:v4", "cb1:5"], "exc": "B"},
         {"n": 1, "ops": ["ac0:x1", "ae0:v2", "ac0:f3", "ab0:v4", "cb0:0"], "exc": "B"},
         {"n": 1, "ops": ["cb0:0", "ac0:x1", "ae0:v2"], "exc": "B", "dbg": True},
         # Deferred debugging on (seeded change C03-2): same observables
         {"n": 2, "ops": ["ac0:d1", "cb0:1", "cb0:2", "ab1:v3", "cb1:5", "eb1:6"], "dbg": True},
+    ]
+
+
+def _corpus2():
+    """one witness per class of the white-box mutation audit (harness/mutants/C01)"""
+    return [
+        # extra arguments: addErrback(f, a, kw=…) on the success and on the failure path; addCallbacks with callbackArgs
+        # only; keyword arguments only
+        {"n": 1, "ops": ["ae0:v1", "ab0:v2", "cb0:3"], "args": 1},
+        {"n": 1, "ops": ["ae0:v1", "ab0:v2", "eb0:3"], "args": 1},
+        {"n": 1, "ops": ["ac0:x1", "aa0:v2:v3", "ab0:v4", "aa0:v5:f6", "aa0:x7:p", "aa0:p:v8", "cb0:0"], "args": 2},
+        {"n": 1, "ops": ["ac0:v1", "ab0:x2", "ae0:v3", "cb0:0"], "args": 3},
+        # Deferred subclass instances returned by callables (unfired / already fired), Failure subclass instances
+        {"n": 2, "ops": ["ac0:d1", "ab0:v2", "cb0:1", "cb1:5"], "sub": [1]},
+        {"n": 2, "ops": ["cb1:5", "ac0:d1", "ab0:v2", "cb0:1"], "sub": True},
+        {"n": 1, "ops": ["aa0:v1:v2", "ac0:f3", "aa0:v4:v5", "eb0:6"], "fsub": True, "fire": "failure"},
+        {"n": 1, "ops": ["aa0:v1:v2", "eb0:6"], "fsub": True, "fire": "cbf"},
+        # errback(exception outside Exception), errback() in an except block
+        {"n": 1, "ops": ["aa0:v1:v2", "eb0:6"], "exc": "B"},
+        {"n": 1, "ops": ["aa0:v1:v2", "eb0:6", "eb0:7"], "exc": "B", "fire": "noarg"},
+        # None as a value: fired with it, returned, taken from a fired Deferred
+        {"n": 2, "ops": ["cb1:9", "ac0:d1", "ab0:v2", "cb0:1"], "nil": True},
+        {"n": 2, "ops": ["ac1:v9", "cb1:1", "ac0:d1", "aa0:v2:v3", "cb0:9"], "nil": True},
+        # callables that operate on Deferreds: add to their own Deferred (also while it runs as a chainee), fire their
+        # own Deferred again, fire / add to another one
+        {"n": 1, "ops": ["ac0:v2~ac0:v4", "ac0:v3", "cb0:1"]},
+        {"n": 3, "ops": ["ac1:d2", "ac1:v7~ac1:v8", "cb1:0", "cb2:1"]},
+        {"n": 3, "ops": ["ac1:d2", "ac1:v7~ab1:x8~ae1:v3", "ab1:v2", "cb1:0", "ab2:v5", "cb2:1"], "sub": True},
+        {"n": 1, "ops": ["ac0:v2~cb0:9", "ac0:v3", "cb0:1"]},
+        {"n": 2, "ops": ["ac0:v2~cb1:9~ac1:v4", "ac1:v3", "cb0:1", "cb1:2"]},
+        {"n": 2, "ops": ["ac1:d0", "ac0:v2~cb1:9", "ab1:v3", "cb0:1"]},
     ]
 
 
@@ -704,20 +1028,27 @@ def generate(rng, tier):
     full = _alphabet(2, False)
     for ops in _enumerate(full, 2):
         yield {"n": 2, "ops": ops}
-    def variant(c, i):
-        # a quarter of the programs in which a callable raises / returns a Failure use a class outside Exception;
-        # one program in eight runs with Deferred debugging switched on
-        if i % 4 == 1 and any(":x" in t or ":f" in t for t in c["ops"]):
-            c["exc"] = "B"
-        if i % 8 == 3:
-            c["dbg"] = True
-        return c
+    variant = _variant
+    # every short program over the small alphabet again in the "unusual but legal" dress: subclass instances, extra
+    # arguments, None as a value, ready-made Failures
+    k = 0
+    for depth in ((2, 3) if quick else (2, 3, 4)):
+        for ops in _enumerate(small, depth):
+            if any(t[0] == "a" for t in ops) and any(t[0] in "ce" for t in ops):
+                k += 1
+                if quick and depth == 3 and k % 2:
+                    continue
+                yield {"n": 2, "ops": ops, "sub": True, "fsub": True, "fire": ("failure", "cbf", "noarg")[k % 3],
+                       "nil": True, "args": 1 + k % 3}
     for i in range(600 if quick else 15000):
         yield variant(_scenario(rng), i)
     for i in range(2500 if quick else 60000):
         yield variant(_random_program(rng, False), i)
     for i in range(500 if quick else 10000):
         yield variant(_random_program(rng, True), i)
+    # callables that operate on Deferreds themselves (oracle-only)
+    for i in range(1000 if quick else 30000):
+        yield variant(_reentrant(rng), i)
 
 
 # ------------------------------------------------------------------------------------------
@@ -743,6 +1074,7 @@ def tag(c, out):
     for tok, (o, invs, cells) in zip(c["ops"], steps):
         kind, d, a, b = parse_op(tok)
         what = o
+        invs = [e for e in invs if e[2] != "+"]
         if invs:
             what += "+run" + ("*" if len({x[0] for x in invs}) > 1 else "")
         if any(x["result"].startswith("d") and not y["result"].startswith("d") for x, y in zip(cells, prev)):
@@ -754,18 +1086,25 @@ def tag(c, out):
         k = kind
         if kind[0] == "a":
             k += "".join(sorted({s[0] for s in slots_of(kind, a, b)}))
+            k += "~" + "".join(sorted({parse_op(nt)[0] for nt in nested_of(tok)})) if nested_of(tok) else ""
         sig.add(f"{k}@{_state_class(prev[d])}:{what}")
         prev = cells
     return ",".join(sorted(sig))
 
 
 def shrink(c):
-    extra = {k: c[k] for k in ("exc", "dbg") if c.get(k)}
+    extra = {k: c[k] for k in _FLAGS if c.get(k)}
     for d in _shrink(c):
         d.update(extra)
+        if isinstance(d.get("sub"), list):
+            d["sub"] = [i for i in d["sub"] if i < d["n"]]
         yield d
-    if extra:
-        yield {"n": c["n"], "ops": c["ops"]}
+    for k in extra:
+        yield {"n": c["n"], "ops": c["ops"], **{j: v for j, v in extra.items() if j != k}}
+    for i, t in enumerate(c["ops"]):
+        parts = t.split("~")
+        for j in range(1, len(parts)):
+            yield {"n": c["n"], "ops": c["ops"][:i] + ["~".join(parts[:j] + parts[j + 1:])] + c["ops"][i + 1:], **extra}
 
 
 def _shrink(c):
@@ -777,9 +1116,10 @@ def _shrink(c):
         last = c["n"] - 1
         mentions = False
         for t in ops:
-            kind, d, a, b = parse_op(t)
-            if d == last or any(isinstance(s, str) and s == f"d{last}" for s in (a, b)):
-                mentions = True
+            for part in t.split("~"):
+                kind, d, a, b = parse_op(part)
+                if d == last or any(isinstance(s, str) and s == f"d{last}" for s in (a, b)):
+                    mentions = True
         if not mentions:
             yield {"n": last, "ops": ops}
     for i, t in enumerate(ops):
@@ -792,10 +1132,11 @@ def search(rng, tier, disagreeing):
     """property-directed search: every prefix of the disagreeing programs, each also followed by releasing all pauses
     and by adding a probe callable to every Deferred; then short exhaustive programs"""
     for c in disagreeing[:40]:
+        extra = {k: c[k] for k in _FLAGS if c.get(k)}
         for k in range(len(c["ops"]) + 1):
             base = c["ops"][:k]
-            yield {"n": c["n"], "ops": base}
-            yield {"n": c["n"], "ops": base + [f"ab{d}:v1" for d in range(c["n"])]}
+            yield {"n": c["n"], "ops": base, **extra}
+            yield {"n": c["n"], "ops": base + [f"ab{d}:v1" for d in range(c["n"])], **extra}
     small = _alphabet(2, True)
     for depth in range(1, (4 if tier == "quick" else 5) + 1):
         for ops in _enumerate(small, depth):
